@@ -66,13 +66,30 @@ def run(ctx):
         probe = "[" + ", ".join("typeof %s" % x for x in names + ["shown", "got", "d"]) + "].join(',')"
         o = {"src": "const probe_d%d = %s;\nfunction main() { return 'acc=1'; }\nprobe_d%d + '#' + main()" % (i, probe, i), "mode": "steps" if i % 4 < 2 else "eval"}
         cases.append((v, o, names + ["shown", "got", "d"], True))
+    # an INTERNAL source module (registered by the host) whose body fails while it is instantiated by the first import: the importer is a plain
+    # script (no module path), run through both entry points; the dead module's private bindings must not be the scope of later runs
+    internal_cases = {}
+    for i in range(6 if ctx.tier == "quick" else 60):
+        names = ["cfgKey%d" % i, "cfgLoads%d" % i, "cfgLen%d" % i]
+        body = ("const %s = 'k%d'; let %s = %d; function %s() { return %s.length; }\nexport const shown = %s();\n%s\nexport const late = 1;"
+                % (names[0], i, names[1], i, names[2], names[0], names[2], rng.choice(["throw new RangeError('config failed');", "undefinedInConfig%d();" % i, "null.x;"])))
+        if i % 3 == 2:
+            # the internal module's OWN import cannot be bound (the name is not exported by the other internal module)
+            body = "import { nope%d } from 'app:other%d';\n" % (i, i) + body
+        spec = "app:config%d" % i
+        importer = rng.choice(["import { shown } from '%s';\nshown", "import * as cfg from '%s';\nObject.keys(cfg).length", "export { shown } from '%s';\n1"]) % spec
+        v = {"src": importer, "mode": "eval" if i % 2 else "steps", "trace": True, "path": None}
+        probe = "[" + ", ".join("typeof %s" % x for x in names + ["shown", "cfg"]) + "].join(',')"
+        o = {"src": "const probe_i%d = %s;\nfunction main() { return 'acc=1'; }\nprobe_i%d + '#' + main()" % (i, probe, i), "mode": "steps" if i % 4 < 2 else "eval"}
+        internal_cases[len(cases)] = {spec: body, "app:other%d" % i: "export const there = 1;"}
+        cases.append((v, o, names + ["shown", "cfg"], True))
     # corpus: top-level generator.throw from program code, in both entry points
     for mode in ("eval", "steps"):
         v = {"src": "function* g(secret: number) { let local = 1; yield local + secret; yield 2; }\nconst it = g(5); it.next();\nit.throw(new Error('boom'));", "mode": mode, "trace": True, "path": None}
         o = {"src": "const probe_c = [typeof secret, typeof local].join(',');\nfunction main() { return 'acc=1'; }\nprobe_c + '#' + main()", "mode": "steps"}
         cases.append((v, o, ["secret", "local"], False))
-    lines = [json.dumps({"gc": rng.choice([None, 1, 100]), "runs": [v, o]}) for v, o, _, _ in cases]
-    fresh = [json.dumps({"gc": None, "runs": [o]}) for _, o, _, _ in cases]
+    lines = [json.dumps({"gc": rng.choice([None, 1, 100]), "runs": [v, o], "internal": internal_cases.get(ci, {})}) for ci, (v, o, _, _) in enumerate(cases)]
+    fresh = [json.dumps({"gc": None, "runs": [o], "internal": internal_cases.get(ci, {})}) for ci, (_, o, _, _) in enumerate(cases)]
     got = common.harness(["life"], lines, timeout=900)
     ref = common.harness(["life"], fresh, timeout=900)
     mlines, mback = [], []
